@@ -1507,6 +1507,12 @@ class Tensor:
                 if isinstance(fiber.payloads[0], Fiber):
                     frontier.extend(fiber.payloads)
 
+        # Maintain the mutability hint and the formats
+        swizzled.setMutable(self.isMutable())
+
+        for rank_id in rank_ids:
+            swizzled.setFormat(rank_id, self.getFormat(rank_id))
+
         return swizzled
 
 
